@@ -39,6 +39,10 @@ type Case struct {
 	Outage string `json:"outage,omitempty"`
 	// AgeHours: age of thisUpdate in the response used for the white-box lifetime check (nextUpdate = now + 1 h)
 	AgeHours int `json:"age_hours"`
+	// SoftFail: a lenient instance (ocsp_aia_strict off, same default duration) reads a third certificate while its
+	// responder fails (http500 | garbage | stranger-signed); the handshake is accepted without an answer, then the
+	// responder recovers and answers 'revoked'
+	SoftFail string `json:"soft_fail,omitempty"`
 }
 
 func genCase(t *rapid.T) Case {
@@ -54,6 +58,7 @@ func genCase(t *rapid.T) Case {
 		Concurrent: rapid.Bool().Draw(t, "concurrent"),
 		Outage:     rapid.SampledFrom([]string{"", "http500", "garbage", "stranger"}).Draw(t, "outage"),
 		AgeHours:   rapid.SampledFrom([]int{0, 1, 6, 48}).Draw(t, "age"),
+		SoftFail:   rapid.SampledFrom([]string{"", "http500", "garbage", "stranger"}).Draw(t, "softfail"),
 	}
 	c.Reads = rapid.IntRange(6, 14).Draw(t, "reads")
 	return c
@@ -124,6 +129,25 @@ func runCase(c Case, x *ev.Ctx) error {
 			return fmt.Errorf("after a FAILED query the next handshake answered %v with %d new responder requests: a failed query must not be cached", v, ra.Requests()-before)
 		}
 		x.Class("failed-query-not-cached")
+	}
+	if c.SoftFail != "" {
+		leafS := gen.Issue(gen.CertSpec{Key: "p256f", Subject: gen.CN(base + " soft client"), SerialHex: "5353", OCSP: []string{o.URL("/s")}}, caA)
+		first := world.OCSPAnswer{Kind: c.SoftFail}
+		if c.SoftFail == "stranger" {
+			first = world.OCSPAnswer{Kind: "good", Signer: "stranger"}
+		}
+		rs := world.NewResponder(o, "/s", world.NewOCSPParties(base+"s", caA, leafS), first)
+		chainsS := [][]*x509.Certificate{{leafS.Cert, caA.Cert}}
+		lenient := world.NewOCSPChecker(world.OCSPOpts{Strict: false, Cache: D})
+		if v := world.Ask(lenient, chainsS); v.Kind != "ok" {
+			return fmt.Errorf("setup: lenient instance, responder failing (%s): answered %v", c.SoftFail, v)
+		}
+		before := rs.Requests()
+		rs.Set(world.OCSPAnswer{Kind: "revoked", NextUpdate: c.NextUpdate})
+		if v := world.Ask(lenient, chainsS); v.Kind != "revoked" {
+			return fmt.Errorf("lenient instance (default_cache_duration %v): after a query WITHOUT an authentic answer (%s, handshake accepted) the responder recovered and answers 'revoked', but the next handshake answered %v with %d new responder requests: the outcome of a failed query was cached", D, c.SoftFail, v, rs.Requests()-before)
+		}
+		x.Classf("soft-fail-not-cached=%s", c.SoftFail)
 	}
 	// the twin certificate: other issuer, identical subject and serial; its responder says revoked
 	var chainsB [][]*x509.Certificate
